@@ -13,11 +13,11 @@ P2Tab == PowTab(Two)
 P5Tab == PowTab(<<5>>)
 P2(n) == IF n < 64 THEN NPow(Two, n) ELSE NMul(P2Tab[(n \div 64) + 1], NPow(Two, n % 64))
 P5(n) == IF n < 64 THEN NPow(<<5>>, n) ELSE NMul(P5Tab[(n \div 64) + 1], NPow(<<5>>, n % 64))
-MantBits(w) == IF w = 64 THEN 52 ELSE 23
-ExpBits(w) == IF w = 64 THEN 11 ELSE 8
-ExpMaxField(w) == IF w = 64 THEN 2047 ELSE 255
+MantBits(w) == IF w = 64 THEN 52 ELSE IF w = 32 THEN 23 ELSE 10
+ExpBits(w) == IF w = 64 THEN 11 ELSE IF w = 32 THEN 8 ELSE 5
+ExpMaxField(w) == IF w = 64 THEN 2047 ELSE IF w = 32 THEN 255 ELSE 31
 \* exponent of the unit of the mantissa: value = M * 2^(e - Bias2) for normal numbers
-Bias2(w) == IF w = 64 THEN 1075 ELSE 150
+Bias2(w) == IF w = 64 THEN 1075 ELSE IF w = 32 THEN 150 ELSE 25
 
 \* fields <<sign (0/1), exponent field, mantissa (BigNat)>> of a bit pattern (BigNat)
 Fields(bits, w) ==
